@@ -13,7 +13,11 @@ PLAN={  # seeded change -> checks to try (own property first)
  'r4-A1':['C01','C06','C10'], 'r4-A2':['C05','C08'], 'r4-A3':['C15','C06'], 'r4-A4':['C14'],
  'r4-B1':['C03','C13'], 'r4-B2':['C04','C03'], 'r4-B3':['C13'], 'r4-B4':['C17'],
  'r4-C1':['C07'], 'r4-C2':['C11','C01'], 'r4-C3':['C12','C01'], 'r4-C4':['C09','C01'],
+ 'r5-A1':['C02','C12'], 'r5-A2':['C02','C12'], 'r5-A3':['C05','C08'], 'r5-A4':['C16','C17'],
+ 'r5-B1':['C06'], 'r5-B2':['C14'], 'r5-B3':['C08'], 'r5-B4':['C11','C01'],
+ 'r5-C1':['C13'], 'r5-C2':['C10','C06'], 'r5-C3':['C12','C01'], 'r5-C4':['C07'],
 }
+R5={'A1':'C02','A2':'C02','A3':'C05','A4':'C16','B1':'C06','B2':'C14','B3':'C08','B4':'C11','C1':'C13','C2':'C10','C3':'C12','C4':'C07'}
 R4={'A1':'C01','A2':'C05','A3':'C15','A4':'C14','B1':'C03','B2':'C04','B3':'C13','B4':'C17','C1':'C07','C2':'C11','C3':'C12','C4':'C09'}
 R3={'A1':'C06','A2':'C11','A3':'C14','A4':'C09','B1':'C02','B2':'C10','B3':'C12','B4':'C13','C1':'C07','C2':'C08','C3':'C17','C4':'C16'}
 def sh(cmd, **k): return subprocess.run(cmd, shell=True, capture_output=True, text=True, **k)
@@ -27,6 +31,7 @@ for name in names:
     prop={'X1':'C12','X2':'C13','X3':'C11'}.get(prop,prop)
     if name.startswith('r3-'): prop=R3.get(prop,prop)
     if name.startswith('r4-'): prop=R4.get(prop,prop)
+    if name.startswith('r5-'): prop=R5.get(prop,prop)
     checks=PLAN.get(name,[prop] if re.match(r'^C\d\d$',prop) else [])
     meta_path=os.path.join(d,'meta.json')
     meta=json.load(open(meta_path)) if os.path.exists(meta_path) else {}
